@@ -101,6 +101,9 @@ class Tr:
             t = f(za)
             self.side.append(t > 0)
             self.side.append(t >= 1 + za)
+            self.side.append(z3.Implies(za < 0, t < 1))
+            self.side.append(z3.Implies(za > 0, t > 1))
+            self.side.append(z3.Implies(za == 0, t == 1))
             for (zb, tb) in self.exp_args[:8]:
                 self.side.append(z3.Implies(za < zb, t < tb))
                 self.side.append(z3.Implies(zb < za, tb < t))
